@@ -342,6 +342,7 @@ def r5(ctx, rule: str = "C03-R5", full_model_only: bool = False) -> None:
         ctx.ob(rule, f"calculate_full_matrices/kron-layout:{'index-dependent' if in_comp else 'index-independent'}", ok, cf, st,
                f"rows of the full matrix must be flat(G,M) like the flattened data, columns flat(K,C) like the reshaped clps; found {show(sh)}")
     aws = [c for c in lib.calls(cf) if norm(c.func).endswith("apply_weight")]
+    ctx.sites(rule, "sites iterated at rules/c03.py:345 (aws)", len(aws), 1)
     for c in aws:
         ok = len(c.args) == 2 and norm(c.args[0]) == "full_matrix" and "get_flattened_weight(label)" in norm(flc.term(c.args[1], lib.stmt_of(c)).__repr__()) or (
             len(c.args) == 2 and norm(c.args[1]) == "weight" and any(
